@@ -300,6 +300,39 @@ fn large_bucket_case(j: u64) -> Case {
     Case { sig_words, val_kind, offline, bucket_bits, max_shard_bits, shard_bits, pairs }
 }
 
+/// More shards than any 8- or 16-bit shard index can address: max shard bits 11..=20 (straddling 2^16
+/// shards and 2^16 shards per bucket), a few hundred pairs, online and offline, split / equal / aggregate.
+fn many_shards_case(j: u64) -> Case {
+    let max_bits_menu = [17u32, 16, 18, 20, 11, 15, 19, 12];
+    let max_shard_bits = max_bits_menu[j as usize % max_bits_menu.len()];
+    let k = j / max_bits_menu.len() as u64;
+    let bucket_bits = [0u32, 1, 3, 8, 2, 0, 4, 0][(k % 8) as usize];
+    let offline = k % 3 == 2;
+    let bucket_bits = if offline { bucket_bits.min(4) } else { bucket_bits };
+    let shard_bits = match (k / 2) % 4 {
+        0 | 1 => max_shard_bits,
+        2 => max_shard_bits - 1,
+        _ => 16 + (j % 2) as u32,
+    }
+    .min(max_shard_bits);
+    let sig_words = if k % 5 == 4 { 1 } else { 2 };
+    let val_kind = [1u8, 0, 3, 2][(k % 4) as usize];
+    let mut x = 0x9E37_79B9_7F4A_7C15u64 ^ j.wrapping_mul(0xD6E8_FEB8_6659_FD93);
+    let mut next = || {
+        x ^= x << 13;
+        x ^= x >> 7;
+        x ^= x << 17;
+        x
+    };
+    let n = 300 + (j as usize % 7) * 100;
+    let mut pairs: Vec<(u64, u64, u64)> = (0..n as u64).map(|i| (next(), next(), i)).collect();
+    // extreme signatures: first/last shard, both sides of the top bit, both sides of shard 2^16 within a bucket
+    for (i, s) in [0u64, u64::MAX, 1 << 63, (1 << 63) - 1, 1 << 47, (1 << 47) - 1, 1 << 48, (1 << 48) - 1].into_iter().enumerate() {
+        pairs.push((s, next(), 5000 + i as u64));
+    }
+    Case { sig_words, val_kind, offline, bucket_bits, max_shard_bits, shard_bits, pairs }
+}
+
 impl Property for C18 {
     fn id(&self) -> &'static str {
         "C18"
@@ -312,10 +345,12 @@ impl Property for C18 {
             Segment::enumerated("large-buckets", tier.pick(32, 256), &[2]),
             // a single bucket file above 2 GiB (one read(2) call returns at most 0x7ffff000 bytes)
             Segment::enumerated("bucket-file-above-2GiB", tier.pick(1, 3), &[3]),
+            // more than 2^8 / 2^16 shards, and more than 2^16 shards per bucket
+            Segment::enumerated("many-shards", tier.pick(48, 192), &[4]),
         ]
     }
     fn rule(&self) -> &'static str {
-        "case = (signature type in {[u64;1],[u64;2]}, value type in {u8,u64,usize,EmptyVal}, online/offline (offline with an expected-size hint that is absent, exact, half, 10x+100000 or 2^24), bucket bits 0..=8 (offline 0..=4), max shard bits 0..=10, requested shard bits 0..=max (fewer, equal, more than the bucket bits), a multiset of pairs whose high bits are uniform / all in one shard / in two adjacent shards / all ones / all zeros, with exact duplicates) decoded from bytes; oracle = a hash multiset of (home shard, sig, value) built from the pushed pairs; observed SigStore::len after every push, ShardStore::len, shard_sizes, two borrowed iterations and the consuming one: number of shards, each shard's length, home shard of every pair, multiset equality. Plus one to three offline stores with 512-byte pairs whose single bucket file exceeds 2 GiB (4.2 million pairs; needs about 2.2 GB of temporary disk and 5 GB of memory). Plus an enumerated segment of stores whose single buckets hold 32768..262145 pairs (around 2^15, 2^16, 2^17 pairs and 1 MiB of 8/16/24/32-byte pairs), online and offline, split, equal and aggregate. Non-trivial: at least 2 non-empty shards and shard bits != bucket bits; distinct = distinct hash of the decoded case."
+        "case = (signature type in {[u64;1],[u64;2]}, value type in {u8,u64,usize,EmptyVal}, online/offline (offline with an expected-size hint that is absent, exact, half, 10x+100000 or 2^24), bucket bits 0..=8 (offline 0..=4), max shard bits 0..=10, requested shard bits 0..=max (fewer, equal, more than the bucket bits), a multiset of pairs whose high bits are uniform / all in one shard / in two adjacent shards / all ones / all zeros, with exact duplicates) decoded from bytes; oracle = a hash multiset of (home shard, sig, value) built from the pushed pairs; observed SigStore::len after every push, ShardStore::len, shard_sizes, two borrowed iterations and the consuming one: number of shards, each shard's length, home shard of every pair, multiset equality. Plus one to three offline stores with 512-byte pairs whose single bucket file exceeds 2 GiB (4.2 million pairs; needs about 2.2 GB of temporary disk and 5 GB of memory). Plus an enumerated segment of stores whose single buckets hold 32768..262145 pairs (around 2^15, 2^16, 2^17 pairs and 1 MiB of 8/16/24/32-byte pairs), online and offline, split, equal and aggregate. Plus an enumerated segment of stores with max shard bits 11..=20 (more than 2^16 shards, and more than 2^16 shards per bucket), a few hundred pairs with extreme signatures, online and offline. Non-trivial: at least 2 non-empty shards and shard bits != bucket bits; distinct = distinct hash of the decoded case."
     }
     fn run(&self, data: &[u8], cx: &mut Ctx) -> R {
         let (mode, rest) = data.split_first().unwrap_or((&0, &[]));
@@ -339,6 +374,11 @@ impl Property for C18 {
                 })
                 .collect();
             Case { sig_words: 2, val_kind: 4, offline: true, bucket_bits, max_shard_bits: bucket_bits, shard_bits: 0, pairs }
+        } else if *mode == 4 {
+            let mut b = [0u8; 8];
+            b[..rest.len().min(8)].copy_from_slice(&rest[..rest.len().min(8)]);
+            cx.label("many_shards");
+            many_shards_case(u64::from_le_bytes(b))
         } else if *mode == 2 {
             let mut b = [0u8; 8];
             b[..rest.len().min(8)].copy_from_slice(&rest[..rest.len().min(8)]);
